@@ -97,6 +97,7 @@ class Gen:
         self.anys = [r_param(p + 1) for p in range(self.nparams)]
         self.sites, self.subs = [], []
         self.flagged = False
+        self.setups = []        # references to results of setup call sites (top level only)
         self.flagpool = []      # elements of earlier results that are flag-like: several calls gated by parts of one result
         for _ in range(self.nsites):
             self.add_site()
@@ -137,7 +138,17 @@ class Gen:
     def add_site(self):
         rng = self.rng
         j = len(self.sites) + 1
-        site = {"kind": "call", "fn": "mix", "args": [], "kw": [], "active": r_none(), "unpack": 0, "sub": 0}
+        site = {"kind": "call", "fn": "mix", "args": [], "kw": [], "active": r_none(), "unpack": 0, "sub": 0, "setup": False}
+        if self.depth == 0 and rng.random() < 0.12:
+            # a setup call site: constants and results of other setup sites only; computed once per DAG object
+            site["setup"] = True
+            site["args"] = [self.unique_const()] + [rng.choice(self.setups) if self.setups and rng.random() < 0.6 else r_const(rng.choice(INT_VALUES))
+                                                    for _ in range(rng.randint(0, 2))]
+            self.setups += [r_site(j), r_site(j, [key_i(0)])]
+            self.anys += [r_site(j), r_site(j, [key_i(0)])]
+            self.ints.append(r_site(j, [key_i(0)]))
+            self.sites.append(site)
+            return
         flag = self.maybe_flag()          # drawn first: a site can not refer to itself
         n_ints = len(self.ints)
         c = rng.random()
